@@ -143,14 +143,15 @@ SEQ_TB = MDD_TB + ["the diagram is a parameter of the solver model: theorems ass
 SEQ_ENGINES = [dict(name="seq", label="seq_clean", args=[]), dict(name="seq", label="seq_pooled", args=["--pooled"])]
 
 PROPS["C01"] = dict(
-    modules=["DdoModel.Props.C01", "DdoModel.Props.C01b", "DdoModel.Props.C01t"],
+    modules=["DdoModel.Props.C01", "DdoModel.Props.C01b", "DdoModel.Props.C01t", "DdoModel.Props.C01c"],
     theorems=["Ddo.C01.process_inv", "Ddo.C01.init_inv", "Ddo.C01.complete_optimal", "Ddo.C01.infeasible_no_update",
               "Ddo.enqueue_false_spec", "Ddo.updateBest_ok",
               "Ddo.C01b.process_dedup_rel", "Ddo.C01b.process_inv_dedup", "Ddo.C01b.process_inv_any", "Ddo.C01b.process_inv_dedup_potential",
               "Ddo.C01t.step_measure_lt", "Ddo.C01t.seq_terminates", "Ddo.C01t.no_infinite_run", "Ddo.C01t.goodStep_inv", "Ddo.C01t.run_inv",
-              "Ddo.C01t.run_end_optimal", "Ddo.C01t.good_terminates", "Ddo.lexLT_wf"],
+              "Ddo.C01t.run_end_optimal", "Ddo.C01t.good_terminates", "Ddo.lexLT_wf",
+              "Ddo.C01.compileOk_restricted", "Ddo.C01.compileOk_relaxed", "Ddo.C01.restricted_sound_within", "Ddo.C01.process_inv_of_model"],
     stated_not_proved=["Ddo.C01.CachePruneOk / Ddo.C10.DomPruneOk (runs with a threshold cache or cross-diagram dominance)",
-                       "closed theorem with the diagram models plugged in (needs C06-C08 as theorems on Mdd.lean: relaxed_ub, restricted_sound in progress)"],
+                       "fully closed theorem (no contract hypothesis left): compileOk_restricted / compileOk_relaxed discharge CompileOk from the diagram model (process_inv_of_model); CutsetOk from C08 (i), (iii), (iv) is the remaining composition step (in progress)"],
     level_text="The coverage invariant of the sequential branch-and-bound (if the optimum beats the incumbent, some open sub-problem still has the optimum as its potential and a bound above it; every open sub-problem is exact; the incumbent is the value of the stored feasible solution) is proved to hold initially, to be preserved by process_one_node under exactly the diagram contracts of C06-C08, and to imply - when the fringe is found empty - that the incumbent is the optimum (none iff infeasible). For every model, width, ranking and every diagram meeting the contracts. The solver model is tied to the code by tape validation: every call the real solver makes to its diagram, cache and fringe (arguments included) must be the model's next call, on every explored run; phi compares the final value with the exact optimum.",
     level_note="Partial: proved for both fringes (plain multiset and duplicate-free: the latter coalesces the former, process_dedup_rel), without threshold cache / cross-diagram dominance, which are stated, not proved, and watched by tape validation + phi. Termination: every turn of the loop (any pop, any answers, cutoffs included) strictly decreases the per-depth entry counts of the fringe in the lexicographic order, which is well-founded (seq_terminates), provided cut-set nodes are strictly deeper than the node they come from (C08 (ii)) - exactly what fails for the pooled diagram with long arcs (open finding D5). run_end_optimal: any finite run of contract-abiding turns from an invariant state that reaches the empty fringe holds the optimum and a feasible solution. The diagram contracts are hypotheses here (they are the subject of C06-C08). SeqInvDedup / LexNat / C01b / C01t were produced by a delegated proof session and are checked by the same lake build / axiom audit.",
     engines=SEQ_ENGINES, trusted_base=SEQ_TB,
@@ -215,6 +216,21 @@ PROPS["C20"] = dict(
     trivial_tags=["infeasible"],
 )
 
+EX_NAMES = ["knapsack", "misp", "max2sat", "mcp", "lcs", "golomb", "psp", "sop", "tsptw", "srflp", "talentsched", "alp"]
+PROPS["C16"] = dict(
+    claimed=False,
+    modules=["DdoModel.Examples.Knapsack", "DdoModel.Examples.KnapsackModel"],
+    theorems=["Ddo.Examples.KnapsackModel.wfRel", "Ddo.Examples.KnapsackModel.rubAdmissible", "Ddo.Examples.KnapsackModel.H_root", "Ddo.Examples.KnapsackModel.knapsack_relaxed_ub"],
+    stated_not_proved=[],
+    level_text="",
+    level_note="",
+    engines=[dict(name="ex", label="ex_" + n, args=[n, "--per=24,300" if n == "golomb" else "--per=150,1500"]) for n in EX_NAMES],
+    trusted_base=TB_COMMON + ["the exhaustive specifications DdoModel/Examples/*.lean are the reference (written from the problem statements, independently of the DP models)", "process spawning, stdout parsing of the example binaries"],
+    assumptions=["instances within each example's documented input domain (generator tags ood_* are excluded)"],
+    rule="per example: random small instances in the example's file format (sizes small enough for exhaustive enumeration), the corpus of minimised past failures first, widths {1,2,3,default} x threads {1,2,4} (two combinations per instance, all combinations over a run); non-trivial = all; distinct = distinct (instance, width, threads)",
+    trivial_tags=[],
+)
+
 PROPS["C15"] = dict(
     modules=["DdoModel.Props.C15"],
     theorems=["Ddo.C15.unimpacted_stays_in_pool", "Ddo.C15.layer_only_impacted", "Ddo.C15.branchOn_keeps", "Ddo.C15.expandFold_keeps",
@@ -231,26 +247,31 @@ PROPS["C15"] = dict(
 )
 
 PROPS["C07"] = dict(
-    modules=["DdoModel.Props.C07"],
+    modules=["DdoModel.Props.C07", "DdoModel.Props.C07b"],
     theorems=["Ddo.C07.restricted_sound", "Ddo.C07.restricted_sound_detail", "Ddo.C07.exact_nodes_reachable", "Ddo.C07.exact_nodes_reachable_gen",
-              "Ddo.C07.exact_nodes_step", "Ddo.C07.root_reach", "Ddo.buildLoop_exact_reach", "Ddo.finalize_bestSol_eq"],
-    stated_not_proved=["restricted_exact_truthful (is_exact and OPT_N > lb -> best value = OPT_N) and exact_mode_opt (exact mode yields the optimum whatever the width): evaluated by phi on every explored compilation, not proved", "pooled diagram"],
+              "Ddo.C07.exact_nodes_step", "Ddo.C07.root_reach", "Ddo.buildLoop_exact_reach", "Ddo.finalize_bestSol_eq",
+              "Ddo.C07.exact_mode_opt", "Ddo.C07.exact_mode_opt_rel", "Ddo.C07.exact_mode_opt_value", "Ddo.C07.restricted_exact_truthful", "Ddo.C07.restricted_exact_truthful_rel",
+              "Ddo.C07.restricted_exact_value", "Ddo.C07.nonrelaxed_le_opt", "Ddo.C07.exact_mode_le", "Ddo.C07.CounterCache.counter", "Ddo.C07.CounterClamp.counter"],
+    stated_not_proved=["pooled diagram (correspondence + phi)", "the optimum clauses with a cutoff position (stopAt = none in the theorems)"],
     level_text="For the clean diagram model (all compilation types, any cache / dominance configuration, any cutoff): every node flagged exact anywhere in the diagram is genuinely reached from the problem root by the decisions of its best-arc chain with exactly its value and depth (invariant of the whole compilation loop, 1150 lines of Lean); hence a restricted or exact compilation never reports a value above the sub-problem optimum: its best value is that of a genuinely feasible complete solution, and the reported best_solution is the root path followed by exactly those decisions (restricted_sound). The remaining clauses (an exact-claiming restricted diagram and exact mode reach the optimum) are evaluated as property predicates against the exact value-to-go of every explored instance. The model is tied to the code by complete observation of single compilations (engine mdd).",
-    level_note="Partial: optimality of exact / exact-claiming restricted diagrams is evaluated (phi), not proved; the pooled model is covered by correspondence + phi only. Hypothesis NoClamp: costs bounded so that isize saturation never fires on path values. MddExact.lean was produced by a delegated proof session and is checked by the same lake build / axiom audit.",
+    level_note="The optimum clauses are theorems as well (C07b / MddTruth.lean): in isolation, for a well-formed model (Potential, RubOk, NoClamp; no MergeOk / AttMerge / width hypothesis), a compilation in exact mode declares itself exact and reports the optimum of the sub-problem with a feasible solution of that value whenever the optimum beats the incumbent, whatever the width (exact_mode_opt); a restricted compilation that declares itself exact does the same (restricted_exact_truthful); any restricted / exact compilation reports at most the optimum (nonrelaxed_le_opt, any cache / dominance / cutoff). Isolation is necessary: CounterCache is a kernel-checked restricted compilation with one explored cache entry that is 'exact' yet reports nothing while the optimum beats the incumbent; CounterClamp shows the guard on saturation is necessary. The pooled model is covered by correspondence + phi only. Hypothesis NoClamp: costs bounded so that isize saturation never fires on path values. MddExact.lean was produced by a delegated proof session and is checked by the same lake build / axiom audit.",
     engines=MDD_ENGINES, trusted_base=MDD_TB,
     assumptions=["NoClamp (no isize saturation on path values)", "the root sub-problem is exact (Reach)"],
     rule=MDD_RULE, trivial_tags=MDD_TRIVIAL,
 )
 
 PROPS["C06"] = dict(
-    modules=["DdoModel.Props.C06", "DdoModel.Props.C07", "DdoModel.Examples.KnapsackModel"],
+    modules=["DdoModel.Props.C06", "DdoModel.Props.C06b", "DdoModel.Props.C07", "DdoModel.Examples.KnapsackModel"],
     theorems=["Ddo.C06.relaxed_ub", "Ddo.C06.relaxed_ub_static", "Ddo.C06.relaxed_ub_rel_dom", "Ddo.C06.relaxed_ub_rel",
+              "Ddo.C06.relaxed_exact_truthful", "Ddo.C06.relaxed_exact_truthful_rel", "Ddo.C06.relaxed_exact_value", "Ddo.C06.relaxed_exact_solution", "Ddo.C06.relaxed_nomerge_truthful",
+              "Ddo.C06.Tie.must_example", "Ddo.C06.Tie.finding",
               "Ddo.Examples.KnapsackModel.wfRel", "Ddo.Examples.KnapsackModel.rubAdmissible", "Ddo.Examples.KnapsackModel.H_root", "Ddo.Examples.KnapsackModel.knapsack_relaxed_ub", "Ddo.C06.CounterA.counter", "Ddo.C06.CounterB.counter",
               "Ddo.C07.exact_nodes_reachable"],
-    stated_not_proved=["relaxed_exact_truthful (a relaxed diagram that declares itself exact has the sub-problem optimum as best exact value) and feasibility of best_exact_solution through the exact-best-path case: evaluated by phi, not proved",
+    stated_not_proved=["feasibility of best_exact_solution for the 'may' resolution of the exact-best-path tie (when the best terminal nodes tie in value and only some of them have an exact best path the code's answer depends on hash order; the value clauses are proved for both resolutions, the solution clause for the 'must' resolution and whenever nothing was merged; Tie.finding shows the model's own tie-break is not the one to replay): evaluated by replaying the implementation's solution (phi)",
+                       "truthful exactness with a cutoff position (stopAt = none in the theorems)",
                        "pooled diagram; compile_history_independent holds by construction of the model (a pure function of the input) and is watched by running 0..3 earlier compilations on the same object"],
     level_text="relaxed_ub: for the clean diagram model (LEL and frontier), any well-formed model (Potential, RubOk, MergeOk in potential form), any width >= 1 and any incumbent, a relaxed compilation in isolation reports a best value >= the optimum of the sub-problem whenever that optimum beats the incumbent - proved by a coverage invariant over the whole compilation loop, merge (fresh and recycled merged node) and rough-bound pruning included (1440 lines of Lean), with a concrete non-vacuity instance in which a merge really happens. Two extra hypotheses turned out to be necessary and are proved necessary by counter-examples in Lean: AttMerge (the variable is selected by next_variable *before* the layer is squashed, so it must also suit the merged state - automatic for static variable orders: relaxed_ub_static) and o <= isize::MAX or lb < isize::MAX. The exactness-claim clauses are evaluated against the exact value-to-go on every explored compilation (phi), incl. an unobserved history of earlier compilations on the same object.",
-    level_note="Partial: the truthful-exactness clause is evaluated (phi), not proved; pooled model by correspondence + phi only. Hypotheses: Potential / RubOk / MergeOk / AttMerge, NoClamp (no isize saturation on path values), isolation (EmptyCache, no dominance rule). The single proof is relaxed_ub_rel_dom: well-formedness relativised to a validity predicate V on (depth, state) pairs closed under transition and merge (WfRel), so that models whose state embeds the depth qualify; relaxed_ub (V := True) is a corollary. Instance: the model of the shipped knapsack example (state = (depth, capacity), merge = last maximal capacity, Dantzig rough bound with the f64 floor abstracted to the exact integer floor) satisfies WfRel whenever the items are sorted by ratio along `order`, weights are positive and profits non-negative (rubAdmissible: Dantzig admissibility fully proved; positive weights are necessary - capacity 0 with an item of weight 0 is a counter-example the Rust loop would stop on), hence knapsack_relaxed_ub: the example's relaxed diagram never reports less than the exhaustive optimum Knapsack.best. KnapsackModel.lean is a hand model of examples/knapsack/main.rs not yet tied pointwise to the example's code (the example binary as a whole is tied by C16's engine). MddCover.lean, WfRel.lean, KnapsackModel.lean were produced by a delegated proof session and are checked by the same lake build / axiom audit.",
+    level_note="Sentence 2 (truthful exactness) is proved too (MddTruth.lean, 1440 lines): a relaxed compilation in isolation whose result declares itself exact has best exact value = best value = the optimum of the sub-problem (when it beats the incumbent), for both resolutions of the hash-order tie, and its best_exact_solution is a feasible complete solution of that value (must-resolution / nothing merged). Pooled model by correspondence + phi only. Hypotheses: Potential / RubOk / MergeOk / AttMerge, NoClamp (no isize saturation on path values), isolation (EmptyCache, no dominance rule). The single proof is relaxed_ub_rel_dom: well-formedness relativised to a validity predicate V on (depth, state) pairs closed under transition and merge (WfRel), so that models whose state embeds the depth qualify; relaxed_ub (V := True) is a corollary. Instance: the model of the shipped knapsack example (state = (depth, capacity), merge = last maximal capacity, Dantzig rough bound with the f64 floor abstracted to the exact integer floor) satisfies WfRel whenever the items are sorted by ratio along `order`, weights are positive and profits non-negative (rubAdmissible: Dantzig admissibility fully proved; positive weights are necessary - capacity 0 with an item of weight 0 is a counter-example the Rust loop would stop on), hence knapsack_relaxed_ub: the example's relaxed diagram never reports less than the exhaustive optimum Knapsack.best. KnapsackModel.lean is a hand model of examples/knapsack/main.rs not yet tied pointwise to the example's code (the example binary as a whole is tied by C16's engine). MddCover.lean, WfRel.lean, KnapsackModel.lean were produced by a delegated proof session and are checked by the same lake build / axiom audit.",
     engines=MDD_ENGINES, trusted_base=MDD_TB,
     assumptions=["well-formed model in potential form (DESIGN.md 5.2), relativised to valid (depth, state) pairs", "NoClamp (on domain decisions)", "AttMerge / vstepMerge (dynamic variable orders)"],
     rule=MDD_RULE, trivial_tags=MDD_TRIVIAL,
